@@ -114,6 +114,9 @@ func (f *ownFam) Apply(st M) M {
 	case "contractpost":
 		// the wasm custom-message entry point: the contract address is s, the message names `creator`
 		pf := &stypes.MsgPostFile{Creator: f.c.Acct(gets(st, "creator")).S(), Merkle: f.trees[gets(st, "m")].root, FileSize: 10, MaxProofs: 3, Note: "{}"}
+		if getb(st, "once") { // paid one by one instead of from a plan: the named creator would be the payer
+			pf.Expires = f.ctx.BlockHeight() + 3*14400
+		}
 		cctx, write := f.ctx.CacheContext()
 		var err error
 		func() {
@@ -248,7 +251,7 @@ func (f *ownFam) Random(rng *rand.Rand) M {
 		if rng.Intn(2) == 0 {
 			cr = acc()
 		}
-		return M{"a": "contractpost", "s": c, "creator": cr, "m": []string{"m1", "m2"}[rng.Intn(2)]}
+		return M{"a": "contractpost", "s": c, "creator": cr, "m": []string{"m1", "m2"}[rng.Intn(2)], "once": rng.Intn(2) == 0}
 	}
 	return M{"a": "tick"}
 }
